@@ -395,6 +395,17 @@ func genMaps(b *builder, o WorldOpts) {
 			b.add(fmt.Sprintf("M%s,%s", randCase(rng, bind), OctalAll("Ma")))
 		}
 	}
+	// names bound to a map that declares no subnet at all (such a client has no location; nothing another map
+	// declares may give it one)
+	if rng.Intn(3) == 0 {
+		for _, bind := range pick(rng, []string{"*.b.example.com", "example.org", "*.org", "www.example.com", "*.net", "ab.example.com"}, 1+rng.Intn(2)) {
+			if _, dup := w.Maps.Resolver[strings.ToLower(bind)]; dup {
+				continue
+			}
+			w.Maps.Resolver[bind] = "zy"
+			b.add(fmt.Sprintf("M%s,%s", randCase(rng, bind), OctalAll("zy")))
+		}
+	}
 	// an ECS map
 	if rng.Intn(2) == 0 || o.ForceECS {
 		for i, l := range w.Locs {
@@ -409,6 +420,12 @@ func genMaps(b *builder, o WorldOpts) {
 		for _, bind := range pick(rng, []string{"*.example.com", "example.com", "*.", "*.org", "*.www.example.com", "a.example.com"}, 1+rng.Intn(3)) {
 			w.Maps.ECS[bind] = "ec"
 			b.add(fmt.Sprintf("8%s,%s", randCase(rng, bind), OctalAll("ec")))
+		}
+		if rng.Intn(3) == 0 { // and a client-subnet binding to a map without subnets
+			if _, dup := w.Maps.ECS["*.sub.example.com"]; !dup {
+				w.Maps.ECS["*.sub.example.com"] = "zy"
+				b.add("8*.sub.example.com," + OctalAll("zy"))
+			}
 		}
 	}
 }
@@ -625,7 +642,7 @@ func ForeignLines(rng *rand.Rand, w *World, loc string) []Line {
 		}
 	}
 	// subnets of a map that is bound to no name: new prefix lengths for CDB's global set
-	for _, cidr := range pick(rng, []string{"172.16.0.0/13", "100.64.0.0/10", "2001:db8:aaaa::/77", "198.18.0.0/15", "fc00::/7", "10.1.0.0/17", "198.51.1.0/26"}, 1+rng.Intn(3)) {
+	for _, cidr := range pick(rng, []string{"172.16.0.0/13", "100.64.0.0/10", "2001:db8:aaaa::/77", "198.18.0.0/15", "fc00::/7", "10.1.0.0/17", "198.51.1.0/26", "::/0", "ff00::/8", "0.0.0.0/0", "255.0.0.0/8"}, 1+rng.Intn(4)) {
 		// each subnet once: one subnet is never declared twice with different locations
 		l := []string{loc, "aa", "bb", "zz"}[rng.Intn(4)]
 		b.add(fmt.Sprintf("%%%s,%s,%s", OctalAll(l), cidr, OctalAll("Mz")))
